@@ -8,7 +8,7 @@ QRows == {1, 2, 5, 6, 20}
 QCols == {1, 2, 5}
 QRoles == {"none", "presentation", "grid", "landmark"}
 QDescRoles == {"none", "tableRole"}
-QHeaders == {"none", "caption", "col", "th"}
+QHeaders == {"none", "caption", "col", "th", "rowth"}
 QCellAttrs == {"none", "scope", "loneAbbr"}
 QObjects == {"none", "iframe"}
 ====
